@@ -917,7 +917,11 @@ fn gen_case(rng: &mut Rng) -> Case {
             };
             match family {
                 0 => match rng.below(11) {
-                    0 | 1 => Op::Push(h, (0..1 + rng.usize(2)).map(|_| gen_v(rng, slots)).collect()),
+                    // (one push in ten carries 9-40 values: more than any plausible block size, and not a multiple of one)
+                    0 | 1 => {
+                        let n = if rng.chance(1, 10) { 9 + rng.usize(32) } else { 1 + rng.usize(2) };
+                        Op::Push(h, (0..n).map(|_| gen_v(rng, slots)).collect())
+                    }
                     2 => Op::Pop(h),
                     3 => Op::Get(h, rng.pick(&IDX).to_string()),
                     4 => Op::Set(h, rng.pick(&IDX).to_string(), gen_v(rng, slots)),
